@@ -87,7 +87,7 @@ ApplyTables(R, lo, hi, r, c, kbar, k) ==
                                 chunk == {b - off : b \in {y \in x : y >= off /\ y < off + sz[t]}}
                             IN Xor(acc, From(XorRows({r + off + b : b \in chunk}, R), c)),
                           row, 1 .. nt)
-  IN [i \in DOMAIN R |-> IF i >= lo /\ i < hi THEN upd(R[i]) ELSE R[i]]
+  IN TLCEval([i \in DOMAIN R |-> IF i >= lo /\ i < hi THEN upd(R[i]) ELSE R[i]])
 
 \* mzd_find_pivot(A, r, c): left-most column >= c holding a one in some row >= r; the first such row
 FindPivot(R, m, r, c) ==
@@ -108,7 +108,7 @@ Loop(R, m, n, full, k, r, c) ==
            R3 == IF kbar > 0 /\ full THEN ApplyTables(R2, 0, r, r, c, kbar, k) ELSE R2
            \* copy back the saved (non-reduced) pivot rows from column c's word on; at GF2 level: the whole rows
            \* from the block's first word (modelled at column granularity of the block start)
-           R4 == IF full THEN R3 ELSE [i \in DOMAIN R3 |-> IF i >= r /\ i < r + kbar THEN saved[i] ELSE R3[i]]
+           R4 == IF full THEN R3 ELSE TLCEval([i \in DOMAIN R3 |-> IF i >= r /\ i < r + kbar THEN saved[i] ELSE R3[i]])
            r2 == r + kbar  c2 == c + kbar
        IN IF kk # kbar
           THEN LET p == FindPivot(R4, m, r2, c2) IN
